@@ -683,7 +683,7 @@ Proof.
   destruct (rc =? 0) eqn:Hrc; cbn [negb] in Hj; [|discriminate].
   apply Z.eqb_eq in Hrc. split; [exact Hrc|].
   assert (Hunl : (maxred <? 0) = true) by (apply Z.ltb_lt; exact Hmax).
-  rewrite Hunl in Hj.
+  rewrite Hunl in Hj. cbn [negb andb] in Hj.
   destruct (wv && (v =? 2)) eqn:H71; [discriminate|].
   destruct (wv && negb ((v =? 0) || (v =? 1))) eqn:H70; [discriminate|].
   destruct (wv && true && negb (Bool.eqb (v =? 1) (sp_greedy tern m n M))) eqn:H72; [discriminate|].
@@ -705,3 +705,30 @@ Proof.
     exists lr, lc. split; [reflexivity|]. split; [exact H74|]. split; [exact H75|].
     exact (cert_verdict _ _ _ _ _ _ _ Hap H75).
 Qed.
+
+(* with a bound on the number of reductions: an accepted record reports SIZE_MAX (-1) exactly when the matrix admits more
+   reductions than the bound, and otherwise the number of reductions it admits *)
+Theorem judge_sp_limited_sound : forall rec tern api maxred wv wr wd wviol ws m n M rc v nred reds reduced viol sepa rest,
+  sp_input rec = Some ((tern, api, maxred, (wv, wr, wd, wviol, ws), (m, n, M), rc, v, nred, reds, reduced, viol, sepa), rest) ->
+  sp_domain tern M = true -> 0 <= maxred -> nred <> -2 ->
+  judge_sp rec = 0 ->
+  rc = 0 /\
+  (maxred < Z.of_nat (total_reds tern m n M) -> nred = -1) /\
+  (Z.of_nat (total_reds tern m n M) <= maxred -> nred = Z.of_nat (total_reds tern m n M)).
+Proof.
+  intros rec tern api maxred wv wr wd wviol ws m n M rc v nred reds reduced viol sepa rest Hdec Hdom Hmax Hreq Hj.
+  unfold judge_sp in Hj. unfold sp_input in Hdec. rewrite Hdec in Hj.
+  unfold sp_domain in Hdom. rewrite Hdom in Hj. cbn [negb] in Hj.
+  destruct (rc =? 0) eqn:Hrc; cbn [negb] in Hj; [|discriminate].
+  apply Z.eqb_eq in Hrc. split; [exact Hrc|].
+  assert (Hlim : (maxred <? 0) = false) by (apply Z.ltb_ge; exact Hmax).
+  rewrite Hlim in Hj. cbn [negb andb] in Hj.
+  assert (Hn2 : (nred =? -2) = false) by (apply Z.eqb_neq; exact Hreq).
+  rewrite Hn2 in Hj. cbn [negb andb] in Hj.
+  destruct (maxred <? Z.of_nat (total_reds tern m n M)) eqn:Hcmp.
+  - destruct (nred =? -1) eqn:E; cbn [negb] in Hj; [|discriminate].
+    apply Z.eqb_eq in E. apply Z.ltb_lt in Hcmp. split; [intros _; exact E | intros H; lia].
+  - destruct (nred =? Z.of_nat (total_reds tern m n M)) eqn:E; cbn [negb] in Hj; [|discriminate].
+    apply Z.eqb_eq in E. apply Z.ltb_ge in Hcmp. split; [intros H; lia | intros _; exact E].
+Qed.
+
